@@ -1351,6 +1351,8 @@ type cbpCtx struct {
 	S    *sidesInfo
 	fn   *ssa.Function
 	step *ssa.Function
+	// helpers wrapping the step that were followed from this function
+	followed *[]*ssa.Function
 }
 
 // continues lists the callback invocations and diff steps in the blocks of reach.
@@ -1362,11 +1364,27 @@ func (k *cbpCtx) continues(reach map[*ssa.BasicBlock]bool) []string {
 		}
 		if kind := k.S.callbackKind(ci); kind != "" {
 			out = append(out, kind+" callback")
-		} else if ci.Common().StaticCallee() == k.step {
+		} else if _, isStep := k.stepCallee(ci); isStep {
 			out = append(out, "next diff step")
 		}
 	}
 	return dedup(out)
+}
+
+// stepCallee: ci calls the diff step, or a helper of the diff that wraps it
+// (a function from which the step is reachable and that returns an error).
+func (k *cbpCtx) stepCallee(ci ssa.CallInstruction) (*ssa.Function, bool) {
+	callee := ci.Common().StaticCallee()
+	if callee == nil {
+		return nil, false
+	}
+	if callee == k.step {
+		return callee, true
+	}
+	if callee != k.fn && k.S.slice[callee] && !k.S.poly[callee] && ir.ErrorResultIndex(callee.Signature) >= 0 && k.c.Facts.Reach(callee)[k.step] {
+		return callee, true
+	}
+	return nil, false
 }
 
 func (k *cbpCtx) errIdx() int { return ir.ErrorResultIndex(k.fn.Signature) }
@@ -1374,6 +1392,12 @@ func (k *cbpCtx) errIdx() int { return ir.ErrorResultIndex(k.fn.Signature) }
 // mustFail: from block `from` (entered when error e is non-nil), every return
 // carries e and nothing continues the diff.
 func (k *cbpCtx) mustFail(what string, e ssa.Value, from *ssa.BasicBlock, skip func(a, b *ssa.BasicBlock) bool, at ssa.Instruction) {
+	k.mustFailX(what, e, from, skip, at, false)
+}
+
+// mustFailX: with exact, the error must be returned as it is (not wrapped):
+// it may be the ErrNoMoreDiffs sentinel, which callers compare with ==.
+func (k *cbpCtx) mustFailX(what string, e ssa.Value, from *ssa.BasicBlock, skip func(a, b *ssa.BasicBlock) bool, at ssa.Instruction, exact bool) {
 	c, P := k.c, k.c.P
 	reach := ir.ReachableFrom(from, skip)
 	bad := false
@@ -1388,6 +1412,10 @@ func (k *cbpCtx) mustFail(what string, e ssa.Value, from *ssa.BasicBlock, skip f
 		}
 		op := r.Results[k.errIdx()]
 		switch {
+		case exact && !(sameValue(op, e) || ir.Strip(op) == e) && errCarries(c, op, e):
+			c.Violation(k.fn, P.InstrPos(r), what+" wrapped although it may be ErrNoMoreDiffs",
+				fmt.Sprintf("%s: %s does not tell ErrNoMoreDiffs apart here, so it must hand the error on unchanged; wrapping it hides the end-of-diff sentinel from the caller", what, k.fn.Name()))
+			bad = true
 		case errCarries(c, op, e):
 		case ir.IsNilConst(op):
 			c.Violation(k.fn, P.InstrPos(r), what+" swallowed: return nil",
@@ -1433,23 +1461,39 @@ func (k *cbpCtx) mustStop(what string, from *ssa.BasicBlock, allowed func(op ssa
 
 // stepCalls checks the handling of the diff step's result in k.fn.
 // endOK says which error operand ends the diff correctly.
-func (k *cbpCtx) stepCalls(endOK func(op, e ssa.Value) bool, endDesc string) int {
+func (k *cbpCtx) stepCalls(endOK func(op, e ssa.Value) bool, endDesc string, needTest bool, depth int) int {
 	c, P := k.c, k.c.P
 	n := 0
 	for _, ci := range CallsOf(k.fn) {
 		call, ok := ci.(*ssa.Call)
-		if !ok || ci.Common().StaticCallee() != k.step {
+		callee, isStep := k.stepCallee(ci)
+		if !ok || !isStep {
 			continue
+		}
+		pos := P.InstrPos(call)
+		if callee != k.step {
+			// a helper wrapping the step: it must hand ErrNoMoreDiffs and
+			// failures on unchanged; then its error is handled here like the
+			// step's own
+			if depth >= 2 {
+				c.Undecided(k.fn, pos, "diff step wrapped too deeply", "the diff step is reached through more than two helper levels; the rule follows two")
+				continue
+			}
+			kw := &cbpCtx{c: c, S: k.S, fn: callee, step: k.step, followed: k.followed}
+			if kw.stepCalls(func(op, e ssa.Value) bool { return sdIsSentinel(op) || sameValue(op, e) }, "ErrNoMoreDiffs", false, depth+1) == 0 {
+				c.Undecided(k.fn, pos, "helper "+callee.Name()+" does not call the diff step directly", "the rule follows helpers that call the step themselves")
+				continue
+			}
+			*k.followed = append(*k.followed, callee)
 		}
 		n++
 		_, e := cbResults(call)
-		pos := P.InstrPos(call)
 		if e == nil {
-			c.Violation(k.fn, pos, "result of the diff step ignored", "the error of "+k.step.Name()+" is not used: neither the end of the diff nor a failure is noticed")
+			c.Violation(k.fn, pos, "result of the diff step ignored", "the error of "+callee.Name()+" is not used: neither the end of the diff nor a failure is noticed")
 			continue
 		}
 		tests := sentinelTests(c, k.fn, e)
-		if len(tests) == 0 {
+		if len(tests) == 0 && needTest {
 			c.Violation(k.fn, pos, "ErrNoMoreDiffs not recognised",
 				fmt.Sprintf("%s never compares the step's error with ErrNoMoreDiffs: the end of the diff is not told apart from a failure", k.fn.Name()))
 		}
@@ -1470,7 +1514,7 @@ func (k *cbpCtx) stepCalls(endOK func(op, e ssa.Value) bool, endDesc string) int
 				}
 				return false
 			}
-			k.mustFail("error of the diff step", e, ni.nonNil, skip, call)
+			k.mustFailX("error of the diff step", e, ni.nonNil, skip, call, len(tests) == 0)
 		}
 	}
 	return n
@@ -1544,37 +1588,28 @@ func runCBPROP(c *Ctx) {
 	if nCb == 0 {
 		c.Undecided(nil, "-", "no callback invocation", "no invocation of the diff callbacks found")
 	}
-	if k.stepCalls(func(op, e ssa.Value) bool { return ir.IsNilConst(op) }, "nil") == 0 {
+	var followedDiff, followedNext []*ssa.Function
+	k.followed = &followedDiff
+	if k.stepCalls(func(op, e ssa.Value) bool { return ir.IsNilConst(op) }, "nil", true, 0) == 0 {
 		c.Undecided(fnDiff, P.Pos(fnDiff.Pos()), "no diff step", fnDiff.Name()+" does not call "+step.Name())
 	}
 	// ---- the cursor form
-	kn := &cbpCtx{c: c, S: S, fn: fnNext, step: step}
-	if kn.stepCalls(func(op, e ssa.Value) bool { return sdIsSentinel(op) || sameValue(op, e) }, "ErrNoMoreDiffs") == 0 {
+	kn := &cbpCtx{c: c, S: S, fn: fnNext, step: step, followed: &followedNext}
+	if kn.stepCalls(func(op, e ssa.Value) bool { return sdIsSentinel(op) || sameValue(op, e) }, "ErrNoMoreDiffs", false, 0) == 0 {
 		c.Undecided(fnNext, P.Pos(fnNext.Pos()), "no diff step", fnNext.Name()+" does not call "+step.Name())
 	}
-	cbpCursorEnd(c, S, fnNext, step)
+	cbpCursorEnd(c, S, append([]*ssa.Function{fnNext}, followedNext...), step)
 }
 
-// cbpCursorEnd: ErrNoMoreDiffs is the only way the cursor ends — it is
-// returned only when the step reported it (or the cursor was marked done
-// then), and the cursor is marked done nowhere else.
-func cbpCursorEnd(c *Ctx, S *sidesInfo, fn, step *ssa.Function) {
+// cbpCursorEnd: ErrNoMoreDiffs is the only way the cursor ends — in NextEntry
+// and the helpers through which it runs the step, the sentinel is returned
+// only where the step reported it (or the cursor was marked done then), and
+// the cursor is marked done nowhere else.
+func cbpCursorEnd(c *Ctx, S *sidesInfo, fns []*ssa.Function, step *ssa.Function) {
 	P := c.P
 	type edge struct{ from, to *ssa.BasicBlock }
-	var endEdges []edge
-	for _, ci := range CallsOf(fn) {
-		call, ok := ci.(*ssa.Call)
-		if !ok || ci.Common().StaticCallee() != step {
-			continue
-		}
-		if _, e := cbResults(call); e != nil {
-			for _, t := range sentinelTests(c, fn, e) {
-				endEdges = append(endEdges, edge{t.If.Block(), t.eq})
-			}
-		}
-	}
-	underEnd := func(b *ssa.BasicBlock) bool {
-		for _, e := range endEdges {
+	under := func(b *ssa.BasicBlock, es []edge) bool {
+		for _, e := range es {
 			if underEdge(b, e.from, e.to) {
 				return true
 			}
@@ -1597,68 +1632,84 @@ func cbpCursorEnd(c *Ctx, S *sidesInfo, fn, step *ssa.Function) {
 		}
 		return sl
 	}
-	var doneEdges []edge
+	endEdges := map[*ssa.Function][]edge{}
+	doneEdges := map[*ssa.Function][]edge{}
 	flags := map[*sdSlot]bool{}
-	for _, b := range fn.Blocks {
-		for _, ins := range b.Instrs {
-			u, ok := ins.(*ssa.UnOp)
-			if !ok {
-				continue
-			}
-			sl := doneField(u)
-			if sl == nil {
-				continue
-			}
-			ifs, _ := sdCondIfs(u)
-			for _, i := range ifs {
-				doneEdges = append(doneEdges, edge{i.If.Block(), i.OnTrue})
-				flags[sl] = true
-			}
-		}
-	}
-	underDone := func(b *ssa.BasicBlock) bool {
-		for _, e := range doneEdges {
-			if underEdge(b, e.from, e.to) {
-				return true
-			}
-		}
-		return false
-	}
-	ei := ir.ErrorResultIndex(fn.Signature)
-	for _, r := range ir.Returns(fn) {
-		if ei < 0 || !sdIsSentinel(r.Results[ei]) {
+	seen := map[*ssa.Function]bool{}
+	var uniq []*ssa.Function
+	for _, fn := range fns {
+		if seen[fn] {
 			continue
 		}
-		pos := P.InstrPos(r)
-		switch {
-		case underEnd(r.Block()):
-			c.OK(pos, "return ErrNoMoreDiffs in "+fn.Name(), "on the edge where the step reported ErrNoMoreDiffs", false)
-		case underDone(r.Block()):
-			c.OK(pos, "return ErrNoMoreDiffs in "+fn.Name(), "the cursor was marked done (checked: only at the end of the diff)", false)
-		default:
-			c.Violation(fn, pos, "ErrNoMoreDiffs returned although the diff has not ended",
-				fn.Name()+" returns ErrNoMoreDiffs on a path where the step has not reported the end of the diff: the cursor ends early and differences are lost")
+		seen[fn] = true
+		uniq = append(uniq, fn)
+		k := &cbpCtx{c: c, S: S, fn: fn, step: step}
+		for _, ci := range CallsOf(fn) {
+			call, ok := ci.(*ssa.Call)
+			if _, isStep := k.stepCallee(ci); !ok || !isStep {
+				continue
+			}
+			if _, e := cbResults(call); e != nil {
+				for _, t := range sentinelTests(c, fn, e) {
+					endEdges[fn] = append(endEdges[fn], edge{t.If.Block(), t.eq})
+				}
+			}
+		}
+		for _, b := range fn.Blocks {
+			for _, ins := range b.Instrs {
+				u, ok := ins.(*ssa.UnOp)
+				if !ok {
+					continue
+				}
+				sl := doneField(u)
+				if sl == nil {
+					continue
+				}
+				ifs, _ := sdCondIfs(u)
+				for _, i := range ifs {
+					doneEdges[fn] = append(doneEdges[fn], edge{i.If.Block(), i.OnTrue})
+					flags[sl] = true
+				}
+			}
 		}
 	}
-	for _, b := range fn.Blocks {
-		for _, ins := range b.Instrs {
-			st, ok := ins.(*ssa.Store)
-			if !ok || !sdConstTrue(st.Val) {
+	for _, fn := range uniq {
+		ei := ir.ErrorResultIndex(fn.Signature)
+		for _, r := range ir.Returns(fn) {
+			if ei < 0 || !sdIsSentinel(r.Results[ei]) {
 				continue
 			}
-			fa, ok := st.Addr.(*ssa.FieldAddr)
-			if !ok {
-				continue
+			pos := P.InstrPos(r)
+			switch {
+			case under(r.Block(), endEdges[fn]):
+				c.OK(pos, "return ErrNoMoreDiffs in "+fn.Name(), "on the edge where the step reported ErrNoMoreDiffs", false)
+			case under(r.Block(), doneEdges[fn]):
+				c.OK(pos, "return ErrNoMoreDiffs in "+fn.Name(), "the cursor was marked done (checked: only at the end of the diff)", false)
+			default:
+				c.Violation(fn, pos, "ErrNoMoreDiffs returned although the diff has not ended",
+					fn.Name()+" returns ErrNoMoreDiffs on a path where the step has not reported the end of the diff: the cursor ends early and differences are lost")
 			}
-			sl := S.sidedField(fa.X.Type(), fa.Field)
-			if sl == nil || !flags[sl] {
-				continue
-			}
-			if underEnd(b) {
-				c.OK(P.InstrPos(st), "cursor marked done ("+sl.field.Name()+") in "+fn.Name(), "only where the step reported ErrNoMoreDiffs", false)
-			} else {
-				c.Violation(fn, P.InstrPos(st), "cursor marked done ("+sl.field.Name()+") although the diff has not ended",
-					fn.Name()+" sets "+sl.field.Name()+" on a path where the step has not reported the end of the diff: the next call returns ErrNoMoreDiffs and differences are lost")
+		}
+		for _, b := range fn.Blocks {
+			for _, ins := range b.Instrs {
+				st, ok := ins.(*ssa.Store)
+				if !ok || !sdConstTrue(st.Val) {
+					continue
+				}
+				fa, ok := st.Addr.(*ssa.FieldAddr)
+				if !ok {
+					continue
+				}
+				sl := S.sidedField(fa.X.Type(), fa.Field)
+				if sl == nil || !flags[sl] {
+					continue
+				}
+				if under(b, endEdges[fn]) {
+					c.OK(P.InstrPos(st), "cursor marked done ("+sl.field.Name()+") in "+fn.Name(), "only where the step reported ErrNoMoreDiffs", false)
+				} else {
+					c.Violation(fn, P.InstrPos(st), "cursor marked done ("+sl.field.Name()+") although the diff has not ended",
+						fn.Name()+" sets "+sl.field.Name()+" on a path where the step has not reported the end of the diff: the next call returns ErrNoMoreDiffs and differences are lost")
+				}
 			}
 		}
 	}
